@@ -168,7 +168,7 @@ func (p *Prog) hashComponents(f *ssa.Function) ([]hashComp, bool) {
 		}
 		v := strip(a[1])
 		if cv, isCv := v.(*ssa.Convert); isCv {
-			v = cv.X
+			v = strip(cv.X)
 		}
 		acc := "?"
 		if ex, isEx := v.(*ssa.Extract); isEx {
